@@ -85,6 +85,11 @@ CLAIMED = {
    note="Trusted: renderer, projection. User macros are modelled abstractly ((kw ARG) rewrites to (list 'k) for that instance's definition k). Library state shared between instances is covered with C13 when built.",
    technique="TLA+ two-instance composition with non-interference invariant checked by TLC over all interleavings, replay, TLC trace validation",
    ref="DESIGN.md section 5, C19"),
+ "C13": dict(
+   text="MCLibs.tla adds a module system to the reference machine: a library instance is a root frame without parent holding its imports and definitions, created by the first import and shared afterwards; importing binds the exported external names to the instance's values. TLC explores every program of one import declaration (5 variants incl. the same library twice under a prefix and a library importing the stateful one) followed by up to 3 (4 thorough) of 13 operations and checks OneInstance, ExportedOnly, LibraryFramesAreRoots and SharedState (peek equals the number of successful bumps through any importer); the model that re-evaluates a library per import - the implementation as found - must be rejected. Every explored program (plus TLC -simulate walks of 12 operations) is replayed with the libraries as registered sources and as .sld files in the program directory.",
+   note="Trusted: rendering of the TLA+ library definitions to define-library text, projection. Imports precede all other forms. Mutation of an exported variable itself (as opposed to state behind exported procedures) is not exercised.",
+   technique="TLA+ module-system model over the abstract machine, invariants checked by TLC on all small programs, replay of every explored history",
+   ref="DESIGN.md section 5, C13"),
 }
 PENDING_REASON = "no check is registered for this property yet: the specification module and binding for it are still being built (see DESIGN.md section 10); nothing is claimed"
 
